@@ -5,19 +5,51 @@ C06_global*), Properties_C06_trees.v (premise-free k = 1 / (2k-1) statements for
 points: Properties_C03_approx*.v, registered under C05.  Tie: the correspondence of C05 (shared experiment, incl. the three
 *_tbb entry points under the controllable TBB shim).  Judge: every answer's total weight
 and returned value against the optimum from the verified `optw` (RefModel) and from the independent oracle:
-<= (2k-1) * opt, = opt for k = 1, and k = 0 must print exactly `THROW runtime_error EMITTED 0`."""
+<= (2k-1) * opt, = opt for k = 1, and k = 0 must print exactly `THROW runtime_error EMITTED 0`.
+The hop bound: the (2k-1) factor rests on the spanner dropping an edge only when its endpoints are joined by at most 2k-1 retained edges, which the
+code decides with is_bfs_reachable(spanner, u, v, 2k-1).  A small stream of direct is_bfs_reachable calls (harness c15, `B s t hops <graph>`) on paths
+with 300..700 vertices checks that decision where hop distances and hop bounds exceed 255 (large k on long sparse graphs), judged with the true hop distance."""
+import json, random
 import lib, approx_common
 
 PID = "C06"
 THEOREMS = ["Properties_C06.v", "Properties_C06_trees.v"]
+C15_LIBS = ["-ltbb", "-lboost_timer"]
+
+
+def hop_bound_stream(c, tier, seed):
+    """is_bfs_reachable on long paths with hop bounds around and beyond 255 (props/c15.py deep_path_query), judged with the hop distance"""
+    from props import c15
+    exe, err = lib.build_cpp(name="c15", srcs=["c15.cpp"], libs=C15_LIBS)
+    if exe is None:
+        c.violation("implementation harness c15 does not compile against the working tree",
+                    {"theorem_or_correspondence": "harness build c15", "log": err, "kind": "impl-build"}, False)
+        return
+    rng = random.Random(seed * 7919 + 606)
+    cases = [cs for cs in lib.corpus_cases(PID) if cs.startswith("B ")]
+    cases += [c15.deep_path_query(rng) for _ in range(60 if tier == "quick" else 600)]
+    io = lib.run_lines([exe], cases)
+    nbad = 0
+    for cs, o in zip(cases, io):
+        t = cs.split()
+        c.count(cs, t[1] != t[2], bucket="is_bfs_reachable on a long path")
+        why = c15.judge(cs, o)
+        if why:
+            nbad += 1
+            if nbad <= 2:
+                c.violation("hop-bounded reachability behind the (2k-1) guarantee (the spanner keeps/drops an edge by is_bfs_reachable(u, v, 2k-1)): " + why,
+                            {"component": "c15", "case": cs, "impl": o}, True)
+    c.extra["hop_bound_queries"] = len(cases)
 
 
 def check(tier, seed):
     c = lib.Check(PID, tier, seed, THEOREMS)
     c.rule = ("(entry point in {approx signed, fvs_trees, iso_trees}) x (double|int weights) x k in {0,1,2,3,5,50} x graph (families of C05: girth > 2k families, "
               "structured, random; weights unit/ties/wide/pow2); distinct by md5; non-trivial = k = 0 (must throw) or cycle space dimension >= 1; "
-              "TBB part as in C05 (three *_tbb entry points under bit-stream schedules and independent insertion orders)")
+              "TBB part as in C05 (three *_tbb entry points under bit-stream schedules and independent insertion orders); plus direct is_bfs_reachable calls on paths "
+              "with 300..700 vertices, end to end and to inner vertices, hop bounds around 255/256/257/300/d-1/d/d+1/inf and between 256 and d")
     c.step_prove()
+    hop_bound_stream(c, tier, seed)
     approx_common.run(c, tier, "bound")
     approx_common.run_tbb(c, tier, "bound")
     return c.finish(
@@ -29,4 +61,14 @@ def check(tier, seed):
 
 
 def replay(path):
+    r = json.load(open(path))
+    if r.get("component") == "c15":
+        from props import c15
+        exe, err = lib.build_cpp(name="c15", srcs=["c15.cpp"], libs=C15_LIBS)
+        o = lib.run_lines([exe], [r["case"]], par=1)[0]
+        why = c15.judge(r["case"], o)
+        print("case :", r["case"][:2000]); print("impl :", o); print("judge:", why)
+        if why:
+            print("VIOLATION property=%s replay=%s" % (PID, path)); return 1
+        return 0
     return approx_common.replay_case(PID, path, "bound")
